@@ -146,6 +146,43 @@ func vsReplayEdgeCover(run *core.Run, prop string, crash bool) {
 			run.AddSample(map[string]interface{}{"behaviour": b.Steps, "predicted_final_state": b.Obs})
 		}
 	})
+	// random walks of the specification (depth 12): histories the BFS-shortest edge cover never takes, e.g. view / rollback /
+	// other commit / view again - the ones on which state the specification does not have (stale caches) would show.
+	// every prefix of a walk is a behaviour of its own; plain and tall concretisation
+	nwalk := 150
+	if run.Thorough() {
+		nwalk = 1500
+	}
+	simCfg := vsCfg(2, 2, "abcde", true, true, true, true, true, vsGenTail)
+	var walks int64
+	_, wst := vsGenerateAndReplayCfg(run, simCfg, []string{"-simulate", fmt.Sprintf("num=%d", nwalk), "-depth", "12", "-seed", fmt.Sprint(run.Seed + 5)}, func(b *vsBehaviour, n int64, scratch string) {
+		conc := vsConcs[int((n+run.Seed)%int64(len(vsConcs)))]
+		for _, tall := range []int{0, 365} {
+			if tall > 0 {
+				skip := false
+				for _, s := range b.Steps {
+					if s.A == "Restart" {
+						skip = true
+					}
+				}
+				if skip || len(b.Steps) < 4 {
+					continue
+				}
+			}
+			out, err := vsReplayT("ldb", tall, conc, b, scratch)
+			if err != nil {
+				core.Fatal("walk replay infrastructure: %v", err)
+			}
+			kind := "ldb-walk"
+			if tall > 0 {
+				kind = "ldb-tall-walk"
+			}
+			run.Count("replayed_walk_prefixes_"+kind, 1)
+			vsReportMismatches(run, prop, kind, conc, b, out.Mismatches)
+		}
+	})
+	walks = wst.Behaviours
+	run.Traces += walks
 	run.Traces += st.Behaviours
 	run.Set("edge_cover", fmt.Sprintf("VStore Gen MaxH=2 views=1: %d abstract states, %d transitions, one behaviour replayed per transition", res.Distinct, res.Generated))
 	run.Set("edge_cover_last_actions", st.Results)
